@@ -1,4 +1,5 @@
 #!/usr/bin/env python3
+# GEN: Gen_Coeffs
 """Gen_Coeffs.v from SourceMap::calcCoefficiants (src/SM/SourceMap.cpp).
 
 Idiom: `switch (it) { case K: ic[0] = e0; ... ic[m-1] = e_{m-1}; break; ... }` with each e_j an
